@@ -396,7 +396,17 @@ def parser_for(o):
         if len(_PARSER_CACHE) > 300:
             _PARSER_CACHE.clear()
         _PARSER_CACHE[key] = mk_parser(o)
+        if len(key) % 3 == 0:
+            # the documented diagnostic output of the new parser is looked at before it is used
+            import contextlib
+            import io
+            with contextlib.redirect_stdout(io.StringIO()):
+                _PARSER_CACHE[key].print_detailed_descr()
+            _DESCRIBED[0] += 1
     return _PARSER_CACHE[key]
+
+
+_DESCRIBED = [0]
 
 
 def judge(ctx, o, text, v, bl2, ol, om, bl, negative, case, bm=()):
@@ -493,6 +503,55 @@ def count_seq_containers(v):
 _START_PARSERS = {}
 
 
+TOK_BLANKS = r"(?P<SPACE>\s)|(?P<WORD>[a-z]+|[0-9]+)|(?P<BO>\[)|(?P<BC>\])|(?P<COMMENT>\#[a-z]*\#)"
+_BLANK_PARSERS = {}
+
+
+def blank_delimited_case(ctx, rng):
+    """nothing is skipped (skip_tokens given as an empty collection): a single blank is the delimiter of the
+    lists, comments are items, a sequence collects every token between its brackets - blanks included"""
+    how = rng.choice(["set", "tuple", "list", "frozenset"])
+    afd = rng.random() < 0.5
+    if (how, afd) not in _BLANK_PARSERS:
+        empty = {"set": set(), "tuple": (), "list": [], "frozenset": frozenset()}[how]
+        _BLANK_PARSERS[how, afd] = llparser.LLParser(
+            TOK_BLANKS, synonyms={'BO': '[', 'BC': ']'}, skip_tokens=empty,
+            productions={'E': [('LIST',), ('COMMENT', 'SEQ', 'COMMENT')],
+                         'LIST': ListProds('[', 'ITEM', 'SPACE', ']', allow_final_delimiter=afd),
+                         'ITEM': [('WORD',), ('LIST',), ('COMMENT',)],
+                         'SEQ': ProdSequence(AnyTokenExcept('COMMENT'))})
+    parser = _BLANK_PARSERS[how, afd]
+    ctx.evaluated()
+    if rng.random() < 0.3:
+        pieces = [rng.choice(["a", "bc", " ", " ", "[", "]", "7", "  "]) for _ in range(rng.choice([0, 1, 3, 6]))]
+        text = "##" + "".join(pieces) + "#x#"
+        import re
+        want = [m.group() for m in re.finditer(TOK_BLANKS, "".join(pieces))]     # (adjacent pieces may form one word)
+    else:
+        def gen(d):
+            return [gen(d + 1) if d < 3 and rng.random() < 0.3 else rng.choice(ATOMS + ["#c#", "##"])
+                    for _ in range(rng.choice([0, 1, 2, 3, 5]))]
+
+        def text_of(v):
+            if isinstance(v, str):
+                return v
+            return "[" + " ".join(text_of(x) for x in v) + (" " if afd and v and rng.random() < 0.4 else "") + "]"
+        want = gen(0)
+        text = text_of(want)
+    case = {"options": {"nothing_skipped": how, "allow_final_delimiter": afd}, "text": text}
+    try:
+        got = norm(parser.parse(text))
+    except Exception as err:
+        ctx.violation("valid-text-rejected", {"type": type(err).__name__, "msg": str(err)[:200]}, case)
+        return
+    ctx.count("texts_parsed_with_nothing_skipped")
+    if isinstance(got, tuple) and got[:2] == ('TE', 'E'):
+        kids = got[2]
+        got = kids[1] if text.startswith("##") and len(kids) == 3 else kids[0] if len(kids) == 1 else got
+    if got != want:
+        ctx.violation("value-differs-from-data", {"got": repr(got)[:300], "expected": repr(want)[:300]}, case)
+
+
 def template_start_case(ctx, rng):
     """the start symbol of the grammar is itself a list / map template (no wrapper production above it)"""
     kind = rng.choice(["list", "map"])
@@ -538,9 +597,13 @@ def template_start_case(ctx, rng):
 def run_shard(ctx):
     for i in range(ctx.cases):
         rng = ctx.rng(i)
+        if i == ctx.cases - 1:
+            ctx.count("parsers_described_before_use", _DESCRIBED[0])
         if i % 10 == 9:
             for _ in range(6):
                 template_start_case(ctx, rng)
+            for _ in range(6):
+                blank_delimited_case(ctx, rng)
         o = gen_options(rng)
         try:
             mk_parser(o)
